@@ -1,7 +1,9 @@
 package verifsim
 
 import (
+	"errors"
 	"fmt"
+	"os"
 	"sort"
 )
 
@@ -192,4 +194,114 @@ func Go2R[A, B, R any](site string, f func(A, B) R, a A, b B) {
 func Go3R[A, B, C, R any](site string, f func(A, B, C) R, a A, b B, c C) {
 	tok := BeforeGo()
 	go func() { GoStart(tok, site); f(a, b, c) }()
+}
+
+// FileWrite / FileWriteString replace (*os.File).Write / WriteString in dtail
+// code (call-site rewrite). They are the disk seam: a run may install
+// Sim.FSWriteFault, which decides per write whether it fails and how many
+// bytes reach the file before it does (short write, ENOSPC, EIO).
+func FileWrite(f *os.File, b []byte) (int, error) {
+	if deadCaller() {
+		return 0, errDead
+	}
+	if s := cur.Load(); s != nil && s.FSWriteFault != nil {
+		if g := s.self(); g != nil {
+			if k, err := s.FSWriteFault(g, f.Name(), len(b)); err != nil {
+				n := 0
+				if k > 0 && k <= len(b) {
+					n, _ = f.Write(b[:k])
+				}
+				s.Fault("disk.write-error")
+				return n, err
+			}
+		}
+	}
+	return f.Write(b)
+}
+
+// FileWriteString see FileWrite.
+func FileWriteString(f *os.File, str string) (int, error) {
+	if s := cur.Load(); s != nil && (s.FSWriteFault != nil || deadCaller()) {
+		return FileWrite(f, []byte(str))
+	}
+	return f.WriteString(str)
+}
+
+// A killed process has no further effect on the file system. Its goroutines
+// unwind with runtime.Goexit (their deferred functions run, which a real
+// SIGKILL would not allow), so every file-system mutation dtail code makes goes
+// through one of the wrappers below and is refused once the caller's node is dead.
+var errDead = errors.New("verifsim: the process was killed")
+
+func deadCaller() bool {
+	s := cur.Load()
+	if s == nil {
+		return false
+	}
+	g := s.self()
+	return g != nil && g.node != nil && g.node.Dead()
+}
+
+// OSRename etc. replace the os functions of the same name in dtail code.
+func OSRename(oldpath, newpath string) error {
+	if deadCaller() {
+		return &os.LinkError{Op: "rename", Old: oldpath, New: newpath, Err: errDead}
+	}
+	return os.Rename(oldpath, newpath)
+}
+
+func OSRemove(name string) error {
+	if deadCaller() {
+		return &os.PathError{Op: "remove", Path: name, Err: errDead}
+	}
+	return os.Remove(name)
+}
+
+func OSRemoveAll(name string) error {
+	if deadCaller() {
+		return &os.PathError{Op: "removeall", Path: name, Err: errDead}
+	}
+	return os.RemoveAll(name)
+}
+
+func OSOpenFile(name string, flag int, perm os.FileMode) (*os.File, error) {
+	if flag&(os.O_WRONLY|os.O_RDWR|os.O_CREATE|os.O_TRUNC|os.O_APPEND) != 0 && deadCaller() {
+		return nil, &os.PathError{Op: "open", Path: name, Err: errDead}
+	}
+	return os.OpenFile(name, flag, perm)
+}
+
+func OSCreate(name string) (*os.File, error) {
+	if deadCaller() {
+		return nil, &os.PathError{Op: "open", Path: name, Err: errDead}
+	}
+	return os.Create(name)
+}
+
+func OSWriteFile(name string, data []byte, perm os.FileMode) error {
+	if deadCaller() {
+		return &os.PathError{Op: "open", Path: name, Err: errDead}
+	}
+	return os.WriteFile(name, data, perm)
+}
+
+func OSTruncate(name string, size int64) error {
+	if deadCaller() {
+		return &os.PathError{Op: "truncate", Path: name, Err: errDead}
+	}
+	return os.Truncate(name, size)
+}
+
+func OSSymlink(oldname, newname string) error {
+	if deadCaller() {
+		return &os.LinkError{Op: "symlink", Old: oldname, New: newname, Err: errDead}
+	}
+	return os.Symlink(oldname, newname)
+}
+
+func OSLink(oldname, newname string) error {
+	if deadCaller() {
+		return &os.LinkError{Op: "link", Old: oldname, New: newname, Err: errDead}
+	}
+	return os.Link(oldname, newname)
 }
